@@ -9,7 +9,7 @@ import sys, os, json, subprocess
 HERE = os.path.dirname(os.path.abspath(__file__))
 sys.path.insert(0, HERE)
 sys.path.insert(0, '/verif/lib')
-from tower import Fp, Quad, fpow, target_field, fsqrt
+from tower import Fp, Quad, Cubic, fpow, target_field, fsqrt
 
 OPS = {'f_de': 1, 'sw_de': 2, 'te_de': 3, 'zc_de': 4, 'po_de': 5, 'sw_check': 6, 'te_check': 7,
        'sw_revalid': 8, 'te_revalid': 9}
@@ -19,7 +19,9 @@ CURVES = {int(k): v for k, v in CFG['curves'].items()}
 ZC = {int(k): v for k, v in CFG['zc'].items()}
 PO = {int(k): v for k, v in CFG['po'].items()}
 GT = {int(k): v for k, v in json.load(open(os.path.join(HERE, 'gt.json'))).items()}
-TOY = [c for c in CURVES if c >= 100]
+TOY = [c for c in CURVES if c >= 100 and CURVES[c]['p'] < 256]     # one-byte fields: exhaustive streams
+# toy curve 107: 71-bit field, COFACTOR = [1, 3] (= 3 * 2^64 + 1), r = 31: r*P is cheap, so a dense stream of points
+DENSE = {107: 12}
 # DEFECT-1: see NOTES.md; the class that exhibits it is generated only on request
 DEFECT1 = True   # the class stays on: the defect was repaired in /repo by fix: commit af4ede0 and must not return
 
@@ -134,7 +136,21 @@ def gen_fields(rng, scale):
 # ---------------------------------------------------------------------------------------
 # curves (generator side: points to encode)
 def field_of(c):
-    return Fp(c['p']) if c['deg'] == 1 else Quad(Fp(c['p']), c['nr'][0] % c['p'])
+    if c['deg'] == 1:
+        return Fp(c['p'])
+    return (Quad if c['deg'] == 2 else Cubic)(Fp(c['p']), c['nr'][0] % c['p'])
+
+
+def weight(c):
+    """cost of one r*P in the extracted model, relative to a 381-bit prime field with a 255-bit r"""
+    return c['deg'] ** 2 * (c['p'].bit_length() / 381.0) ** 2 * (c['r'].bit_length() / 255.0)
+
+
+# quick tier, curves with weight > LITE_W (mnt4_753 G2, mnt6_753 G2, cp6_782 G2): which encodings of an on-curve point
+# are offered with Validate::Yes (each costs one r*P in the model); every class keeps both encodings with Validate::No
+LITE_W = 20
+LITE_V1 = {'G': (1,), '-G': (), 'kG': (0,), 'subgroup+torsion': (1,), 'order2': (0,), 'order4': (1,)}
+LITE_V1_TE = dict(LITE_V1, identity=(1,))
 
 
 class SW:
@@ -365,8 +381,10 @@ def gen_curve(rng, scale, cid, c, op_de, op_ck):
     kind = c['kind']
     E = SW(c) if kind == 'sw' else TE(c)
     F = E.F
-    big = c['deg'] == 2 or c['p'].bit_length() > 300
-    n = (1 if big else 2) * (1 if scale == 1 else 4)
+    big = c['deg'] >= 2 or c['p'].bit_length() > 300
+    lite = scale == 1 and weight(c) > LITE_W
+    lite_v1 = LITE_V1 if kind == 'sw' else LITE_V1_TE
+    n = DENSE.get(cid, 1 if big else 2) * (1 if scale == 1 else 4)
     pts = sw_points(E, rng, n) if kind == 'sw' else te_points(E, rng, n)
     tag = '%s%d' % (kind, cid)
     for P, cl in pts:
@@ -375,7 +393,12 @@ def gen_curve(rng, scale, cid, c, op_de, op_ck):
                 continue            # an off-curve pair has no compressed encoding
             bs = E.enc(P, comp)
             for val in (0, 1):
-                for proj in ((0, 1) if (val == 1 or scale > 1) else (0,)):
+                projs = (0, 1) if (val == 1 or scale > 1) else (0,)
+                if lite:
+                    if val and comp not in lite_v1.get(cl, (0, 1)):
+                        continue
+                    projs = (rng.randrange(2),) if (val == 0 or cl in ('G', 'identity')) else (0,)
+                for proj in projs:
                     yield op_de, curve_args(cid, c, comp, val, proj) + [bs], 'de/%s/c%dv%d' % (cl, comp, val)
     # compressed: x (SW) / y (TE) without a square root -> InvalidData in every mode
     for _ in range(2 * n):
@@ -393,16 +416,23 @@ def gen_curve(rng, scale, cid, c, op_de, op_ck):
             bs = enc_ext(F.p, [y], 2, rng.choice([0, 128]))
             yield op_de, curve_args(cid, c, 1, 1, 0) + [bs], 'de/y_special/c1v1'
     # byte-level mutations of valid encodings
-    for P, cl in pts[1:4]:
+    for P, cl in (pts[1:2] if lite else pts[1:4]):
         for comp in (0, 1):
             for mb, mc in point_mutations(rng, E, E.enc(P, comp), comp, kind):
                 val = rng.randrange(2)
+                if lite and mc not in ('flagsc0', 'flags40', 'coord_ge_p', 'random_bytes', 'all_ones'):
+                    val = 0         # the mutated encoding may still be a curve point: no r*P on the heavy curves
                 yield op_de, curve_args(cid, c, comp, val, rng.randrange(2)) + [mb], 'de/%s/c%dv%d' % (mc, comp, val)
     # EVERY truncation length 0..size-1
     for comp in (0, 1):
         bs = E.enc(pts[3][0], comp)
         assert len(bs) == E.size(comp)
-        for cut in range(len(bs)):
+        cuts = range(len(bs))
+        if lite:                    # heavy curves, quick tier: every 5th length and both sides of each coordinate boundary
+            c0 = fsize(F.p, 0)
+            cuts = sorted(set(list(range(0, len(bs), 5)) + [1, len(bs) - 1, len(bs) - 2] +
+                              [k * c0 + d for k in range(1, len(bs) // c0 + 1) for d in (-1, 0, 1)]) & set(range(len(bs))))
+        for cut in cuts:
             val = rng.randrange(2)
             yield op_de, curve_args(cid, c, comp, val, rng.randrange(2)) + [bs[:cut]], 'de/truncated/c%dv%d' % (comp, val)
     # Valid::check and batch_check (affine and projective; first failure anywhere in the batch)
@@ -426,10 +456,14 @@ def gen_curve(rng, scale, cid, c, op_de, op_ck):
         return F.co(F.mul(P[0], lam)) + F.co(F.mul(P[1], lam)) + F.co(F.mul(F.mul(P[0], P[1]), lam)) + F.co(lam)
     for P, cl in pts:
         for proj in (0, 1):
+            if lite and cl in ('-G', 'kG', 'subgroup+torsion', 'order2', 'order4'):
+                continue
+            if lite and proj != (1 if cl in ('G', 'identity', 'off_curve') else 0):
+                continue
             yield op_ck, curve_args(cid, c, 0, 0, proj) + [[0], (prj if proj else aff)(P)], 'check/%s/p%d' % (cl, proj)
-    for _ in range(3 * (1 if scale == 1 else 3)):
+    for _ in range(1 if lite else 3 * (1 if scale == 1 else 3)):
         proj = rng.randrange(2)
-        k = rng.randrange(0, 5)
+        k = rng.randrange(0, 2 if lite else 5)
         batch = [rng.choice(good) for _ in range(k)]
         cl = 'all_good'
         if bad and rng.randrange(3):
@@ -448,7 +482,7 @@ def gen_toy_exhaustive(rng, scale):
             for val in (0, 1):
                 for proj in (0, 1):
                     yield op, curve_args(cid, c, 1, val, proj) + [[b]], 'toy/exhaustive1/c1v%d' % val
-        full = scale > 1 or cid in (101, 120)
+        full = scale > 1 or cid in (101, 104, 120)
         for v in range(65536):
             if not full and (v * 2654435761 >> 7) % 16:
                 continue
@@ -723,7 +757,12 @@ RULE = ('byte strings offered to deserialize_with_mode in all 4 modes (x affine/
         'non-zero bits, stray bits; integers >= p in any coordinate; EVERY truncation length 0..size-1; longer-than-needed '
         'input; random / all-ones / all-zero bytes; PairingOutput: 1, order r, -1, order 2r, 0, random, base-field elements; '
         'Valid::check / batch_check with the failing element at any position; toy curves (h = 1, 2, 4, 8): every 1-byte string '
-        'and every 2-byte string; non-trivial = non-empty payload; distinct = distinct case lines')
+        'and every 2-byte string; curve grid = every shipped SW / TE configuration with cofactor > 1 (base field Fq, Fq2, Fq3; '
+        'bls12_377 G1/G2/G1-TE, bw6_761, bw6_767, cp6_782, mnt4_298/753 G2, mnt6_298/753 G2, bls12_381, bn254 G2, jubjub, '
+        'bandersnatch, ed25519, curve25519, ed_on_{bls12_377, bn254, cp6_782, bw6_761, mnt4_298, mnt4_753}) + cofactor-one curves + '
+        'toy curves whose COFACTOR is written with several limbs ([2,0], [4,0,0], [1,0], [1,0,0,0], and [1,3] = 3*2^64+1 over '
+        'a 71-bit field); the COFACTOR slice is passed limb by limb; '
+        'non-trivial = non-empty payload; distinct = distinct case lines')
 TRUSTED = ['props/C10/configs.json, gt.json (constants dumped from the compiled crates; re-compared with the compiled constants by '
            'the harness in every case; gt.json holds inputs only)',
            'the byte strings are generator inputs (built by prop.py), not expected values',
